@@ -1,5 +1,5 @@
 import TF.Proofs.NttFinal
-import TF.Proofs.GenBridgeNtt2
+import TF.Proofs.GenBridgeNtt3
 /-!
 # C06 — NTT is the discrete Fourier transform over the field; INTT is its inverse
 
@@ -227,8 +227,8 @@ end TF.C06
 
 /-! ## regenerated-from-source bridge (tools/rs2lean_ext.py, `TF/Gen/NttLoops.lean`)
 
-`bitreverse`, `bitreverse_usize`, `bitreverse_order`, `ntt_unchecked` and `intt_noswap` are **also regenerated from
-`ntt.rs` on every run**, with the field operations as a parameter `ops : Ops σ α` (so one generated definition serves both
+**Every function of `ntt.rs`** — `bitreverse`, `bitreverse_usize`, `bitreverse_order`, `ntt_unchecked`, `intt_noswap`,
+`ntt_noswap`, `unscale` and the wrappers `ntt`, `intt` — is **also regenerated from `ntt.rs` on every run**, with the field operations as a parameter `ops : Ops σ α` (so one generated definition serves both
 fields; the driver evaluates it on `bOps` and `xOps` next to the hand model and prints `GEN-MISMATCH` on a difference).
 Proved here (proofs in `TF/Proofs/GenBridgeNtt.lean`), for every `ops`:
 
@@ -387,5 +387,129 @@ theorem gen_bitreverse_order_eq_model {σ α : Type} (ops : Ops σ α) (a : Arra
   TF.GenBridge.Ntt.gen_bitreverse_order_eq ops a ha
 example : Loops.ntt_bitreverse_order bOps [0, 1, 2, 3, 4, 5, 6, 7] = some [0, 4, 2, 6, 1, 5, 3, 7] ∧
     Loops.ntt_bitreverse_order_ok bOps [0, 1, 2, 3, 4] = false ∧ bitreverseOrder #[0, 1, 2, 3, 4] = none := by decide +kernel
+
+/-! ### the wrappers `ntt` / `intt`, `ntt_noswap`, `unscale` (proofs in `TF/Proofs/GenBridgeNtt3.lean`) -/
+
+/-- **`ntt` regenerated from source = the model, for every vector, every `ops`, every root look-up**:
+    `u32::try_from(len).expect(..)`, `assert!(len == 0 || len.is_power_of_two())`, `checked_ilog2().unwrap_or(0)`,
+    `primitive_root_of_unity(len).unwrap()` and the regenerated `ntt_unchecked`; rejected lengths panic on both sides -/
+theorem gen_ntt_eq_model {σ α : Type} (ops : Ops σ α) (root : Nat → Option σ) (x : Array α) :
+    (Loops.ntt_ntt ops root x.toList).bind (fun r => if Loops.ntt_ntt_ok ops root x.toList then some r else none)
+      = (ntt ops root x).map Array.toList :=
+  TF.GenBridge.Ntt.gen_ntt_eq ops root x
+example : Loops.ntt_ntt bOps primitiveRoot [1, 4, 0, 0] =
+    some [5, 1125899906842625, 18446744069414584318, 18445618169507741698] ∧
+    Loops.ntt_ntt_ok bOps primitiveRoot [1, 4, 0, 0] = true ∧ Loops.ntt_ntt_ok bOps primitiveRoot [1, 4, 0] = false := by
+  decide +kernel
+
+/-- **`intt` regenerated from source = the model, for every vector**: the checks of `ntt`, `omega.inverse()`, the
+    regenerated `ntt_unchecked`, then `*elem *= BFieldElement::from(len).inverse_or_zero()` over the whole slice -/
+theorem gen_intt_eq_model {σ α : Type} (ops : Ops σ α) (root : Nat → Option σ) (x : Array α) :
+    (Loops.ntt_intt ops root x.toList).bind (fun r => if Loops.ntt_intt_ok ops root x.toList then some r else none)
+      = (intt ops root x).map Array.toList :=
+  TF.GenBridge.Ntt.gen_intt_eq ops root x
+example : Loops.ntt_intt bOps primitiveRoot [5, 1125899906842625, 18446744069414584318, 18445618169507741698] =
+    some [1, 4, 0, 0] := by decide +kernel
+
+/-- **`ntt_noswap` regenerated from source = the model for every vector** (root look-up defined only on `0` and the powers
+    of two up to `2^32`): the `logn` loop, the table `powers_of_omega_bitreversed` (`vec![ZERO; n]`, writes at
+    `bitreverse_usize(i, logn - 1)`; `logn - 1` is never evaluated for `n = 1`), the `while m < n` stage loop with the
+    `enumerate().take(m)` block loop and the in-place butterflies = `powersBitrev` / `noswapLoop` / `stageNoswap` -/
+theorem gen_ntt_noswap_eq_model {σ α : Type} (ops : Ops σ α) (root : Nat → Option σ)
+    (hroot : ∀ n, (root n).isSome = true → n = 0 ∨ ∃ L, L ≤ 32 ∧ n = 2 ^ L) (x : Array α) :
+    (Loops.ntt_noswap ops root x.toList).bind
+        (fun r => if Loops.ntt_noswap_ok ops root x.toList then some r else none)
+      = (nttNoswap ops root x).map Array.toList :=
+  TF.GenBridge.Ntt.gen_ntt_noswap_eq_all ops root hroot x
+example : Loops.ntt_noswap bOps primitiveRoot [1, 4, 0, 0] =
+    some [5, 18446744069414584318, 1125899906842625, 18445618169507741698] ∧
+    Loops.ntt_noswap_ok bOps primitiveRoot [1, 4, 0, 0] = true := by decide +kernel
+
+/-- the same for a fixed length `2^L`, `L ≤ 32`, with an arbitrary root look-up -/
+theorem gen_ntt_noswap_eq_model_pow2 {σ α : Type} (ops : Ops σ α) (root : Nat → Option σ) (x : Array α) (L : Nat)
+    (hL : L ≤ 32) (hx : x.size = 2 ^ L) :
+    (Loops.ntt_noswap ops root x.toList).bind
+        (fun r => if Loops.ntt_noswap_ok ops root x.toList then some r else none)
+      = (nttNoswap ops root x).map Array.toList :=
+  TF.GenBridge.Ntt.gen_ntt_noswap_eq ops root x L hL hx
+example : (#[1, 4, 0, 0] : Array Nat).size = 2 ^ 2 := by decide
+
+/-- **`unscale` regenerated from source = the model** (slices of `BFieldElement`: scalar type = element type; `*a *= ninv`
+    is the scalar multiplication, the model's `scale ninv a` — equal when multiplication commutes), value and panic
+    (`inverse` of zero on the empty slice); instance: the executable base field -/
+theorem gen_unscale_eq_model {σ : Type} (ops : Ops σ σ) (hc : ∀ a w, ops.smul a w = ops.scale w a) (a : Array σ) :
+    (if Loops.ntt_unscale_ok ops a.toList then some (Loops.ntt_unscale ops a.toList) else none)
+      = (unscale ops a).map Array.toList :=
+  TF.GenBridge.Ntt.gen_unscale_eq ops hc a
+example : (∀ a w, bOps.smul a w = bOps.scale w a) ∧ Loops.ntt_unscale bOps [4, 16, 0, 0] = [1, 4, 0, 0] ∧
+    Loops.ntt_unscale_ok bOps [] = false := by
+  refine ⟨fun a w => ?_, by decide +kernel, by decide +kernel⟩
+  show Spec.fmul a w = Spec.fmul w a
+  simp only [Spec.fmul, Nat.mul_comm]
+
+/-! ### transfer: C06's main results hold for the code regenerated from the current source -/
+
+open TF.NttFn TF.NttProofs in
+/-- **NTT = DFT, for the regenerated `ntt`** (`ntt_eq_dft` transferred): it finishes, does not panic and returns the DFT -/
+theorem gen_ntt_eq_dft {R : Type} [CommRing R] (inv : R → Option R) (inv0 : R → R) (root : Nat → Option R)
+    (L : Nat) (hL : L ≤ 31) (ω : R) (hr : root (2^L) = some ω) (hω : 0 < L → ω^(2^(L-1)) = -1)
+    (x : Array R) (hx : x.size = 2^L) :
+    ∃ y : Array R, Loops.ntt_ntt (ringOps R inv inv0) root x.toList = some y.toList ∧
+      Loops.ntt_ntt_ok (ringOps R inv inv0) root x.toList = true ∧ y.size = 2^L ∧
+      ∀ i, i < 2^L → toFn y i = dft (2^L) ω (toFn x) i := by
+  obtain ⟨y, hy, hs, hd⟩ := ntt_eq_dft inv inv0 root L hL ω hr hω x hx
+  obtain ⟨g, ok⟩ := TF.GenBridge.Ntt.run_transfer (gen_ntt_eq_model (ringOps R inv inv0) root x) hy
+  exact ⟨y, g, ok, hs, hd⟩
+example : (2 : ℕ) ≤ 31 ∧ (0 < 2 → ((2 : ZMod 5))^(2^(2-1)) = -1) := by decide
+
+open TF.NttFn TF.NttProofs in
+/-- **INTT inverts NTT, for the regenerated `ntt` and `intt`** (`intt_ntt` transferred) -/
+theorem gen_intt_ntt {R : Type} [CommRing R] (inv : R → Option R) (inv0 : R → R) (root : Nat → Option R)
+    (L : Nat) (hL : L ≤ 31) (ω ωi : R) (hr : root (2^L) = some ω) (hi : inv ω = some ωi) (hinv : ωi * ω = 1)
+    (hn : inv0 ((2^L : ℕ) : R) * ((2^L : ℕ) : R) = 1) (hω : 0 < L → ω^(2^(L-1)) = -1)
+    (x : Array R) (hx : x.size = 2^L) :
+    ∃ y : Array R, Loops.ntt_ntt (ringOps R inv inv0) root x.toList = some y.toList ∧
+      Loops.ntt_ntt_ok (ringOps R inv inv0) root x.toList = true ∧
+      Loops.ntt_intt (ringOps R inv inv0) root y.toList = some x.toList ∧
+      Loops.ntt_intt_ok (ringOps R inv inv0) root y.toList = true := by
+  obtain ⟨y, hy, hz⟩ := intt_ntt inv inv0 root L hL ω ωi hr hi hinv hn hω x hx
+  obtain ⟨g, ok⟩ := TF.GenBridge.Ntt.run_transfer (gen_ntt_eq_model (ringOps R inv inv0) root x) hy
+  obtain ⟨g2, ok2⟩ := TF.GenBridge.Ntt.run_transfer (gen_intt_eq_model (ringOps R inv inv0) root y) hz
+  exact ⟨y, g, ok, g2, ok2⟩
+example : (Loops.ntt_ntt bOps primitiveRoot [7, 0, 3, 9]).bind (Loops.ntt_intt bOps primitiveRoot) = some [7, 0, 3, 9] := by
+  decide +kernel
+
+open TF.NttFn TF.NttProofs in
+/-- **the regenerated `ntt_noswap` returns the DFT in bit-reversed order** (`ntt_noswap_eq_dft_bitreversed` transferred) -/
+theorem gen_ntt_noswap_eq_dft_bitreversed {R : Type} [CommRing R] (inv : R → Option R) (inv0 : R → R)
+    (root : Nat → Option R) (L : Nat) (hL : L ≤ 32) (ω : R) (hr : root (2^L) = some ω) (hω : 0 < L → ω^(2^(L-1)) = -1)
+    (x : Array R) (hx : x.size = 2^L) :
+    ∃ y : Array R, Loops.ntt_noswap (ringOps R inv inv0) root x.toList = some y.toList ∧
+      Loops.ntt_noswap_ok (ringOps R inv inv0) root x.toList = true ∧ y.size = 2^L ∧
+      ∀ i, i < 2^L → toFn y i = dft (2^L) ω (toFn x) (bitrev L i) := by
+  obtain ⟨y, hy, hs, hd⟩ := ntt_noswap_eq_dft_bitreversed inv inv0 root L ω hr hω x hx
+  obtain ⟨g, ok⟩ := TF.GenBridge.Ntt.run_transfer (gen_ntt_noswap_eq_model_pow2 (ringOps R inv inv0) root x L hL hx) hy
+  exact ⟨y, g, ok, hs, hd⟩
+example : TF.NttFn.bitrev 2 1 = 2 ∧ TF.NttFn.bitrev 2 2 = 1 := by decide
+
+open TF.NttFn TF.NttProofs in
+/-- **regenerated `intt_noswap ∘ ntt_noswap = n · id`** (`intt_noswap_ntt_noswap` transferred) -/
+theorem gen_intt_noswap_ntt_noswap {R : Type} [CommRing R] (inv : R → Option R) (inv0 : R → R)
+    (root : Nat → Option R) (L : Nat) (hL : L ≤ 32) (ω ωi : R) (hr : root (2^L) = some ω) (hi : inv ω = some ωi)
+    (hinv : ωi * ω = 1) (hω : 0 < L → ω^(2^(L-1)) = -1) (x : Array R) (hx : x.size = 2^L) :
+    ∃ y z : Array R, Loops.ntt_noswap (ringOps R inv inv0) root x.toList = some y.toList ∧
+      Loops.ntt_noswap_ok (ringOps R inv inv0) root x.toList = true ∧
+      Loops.intt_noswap (ringOps R inv inv0) root y.toList = some z.toList ∧
+      Loops.intt_noswap_ok (ringOps R inv inv0) root y.toList = true ∧
+      z.size = 2^L ∧ ∀ i, i < 2^L → toFn z i = ((2^L : ℕ) : R) * toFn x i := by
+  obtain ⟨y, z, hy, hz, hs, hd⟩ := intt_noswap_ntt_noswap inv inv0 root L ω ωi hr hi hinv hω x hx
+  obtain ⟨y', hy', hys, _⟩ := ntt_noswap_eq_dft_bitreversed inv inv0 root L ω hr hω x hx
+  have hyy : y' = y := by rw [hy] at hy'; exact (Option.some.inj hy').symm
+  subst hyy
+  obtain ⟨g, ok⟩ := TF.GenBridge.Ntt.run_transfer (gen_ntt_noswap_eq_model_pow2 (ringOps R inv inv0) root x L hL hx) hy
+  obtain ⟨g2, ok2⟩ := TF.GenBridge.Ntt.run_transfer (gen_intt_noswap_eq_model_pow2 (ringOps R inv inv0) root y' L hL hys) hz
+  exact ⟨y', z, g, ok, g2, ok2, hs, hd⟩
+example : (Loops.ntt_noswap bOps primitiveRoot [1, 4, 0, 0]).bind (Loops.intt_noswap bOps primitiveRoot) = some [4, 16, 0, 0] := by
+  decide +kernel
 
 end TF.C06
